@@ -161,6 +161,7 @@ type c11File struct {
 	goLines  []string // every non-blank Go line outside templates (not package/import lines), in order
 	decls    []string // template declarations as written
 	features []string
+	blocks   []string // multi-line raw strings / block comments that must appear verbatim, blank lines included
 }
 
 var goChunks = []string{
@@ -247,6 +248,17 @@ func (c *Ctx) genC11(i int, risky bool) c11File {
 		if r.Intn(4) == 0 {
 			goLine("var doc = `\n@see the docs\n@ goht spaced\n`")
 			f.features = append(f.features, "at-line")
+		}
+		if r.Intn(3) == 0 {
+			// blank lines are raw-string (and comment) content too: one, two and three in a row, also first and last
+			blk := fmt.Sprintf("var banner%d = `usage:\n  tool [flags]\n\n\nflags:\n\n  -v  verbose\n\n\n\n`", t)
+			if r.Intn(2) == 0 {
+				blk = fmt.Sprintf("/* block %d\n\n\n   two blank lines above\n\n*/", t)
+			}
+			goLine(blk)
+			w("\n")
+			f.blocks = append(f.blocks, blk)
+			f.features = append(f.features, "blank-lines-in-raw-string-or-comment")
 		}
 		if risky && r.Intn(2) == 0 {
 			goLine("var usage = `\npackage y\nimport \"z\"\n`")
@@ -392,6 +404,12 @@ func c11(c *Ctx) {
 		}
 		if len(gotLines) > 0 && gotLines[0] == ")" {
 			gotLines = gotLines[1:]
+		}
+		for _, blk := range f.blocks {
+			if !strings.Contains(out, blk) {
+				report("go-code-block", fmt.Sprintf("a multi-line raw string / block comment does not appear verbatim (blank lines included): %q", clip(blk, 80)))
+				break
+			}
 		}
 		if strings.Join(gotLines, "\n") != strings.Join(f.goLines, "\n") {
 			report("go-code", fmt.Sprintf("Go lines outside templates differ: %s", clip(firstDiff(strings.Join(gotLines, "\n"), strings.Join(f.goLines, "\n")), 240)))
